@@ -207,6 +207,35 @@ REWRITES = {
 }
 
 
+def r6_inline_closure(txt):
+    """R6: `let mut NAME = || BLOCK;` capturing `&mut` state, called as `NAME()`: the closure is inlined at its call
+    sites (`NAME()` -> `(BLOCK)`).  Behaviour-preserving: a zero-argument, non-escaping closure."""
+    m = re.search(r"let mut ([a-z_][a-z_0-9]*) = \|\| \{", txt)
+    if not m:
+        return txt, 0
+    name = m.group(1)
+    i = m.end() - 1
+    depth, j = 0, i
+    while True:
+        if txt[j] == "{":
+            depth += 1
+        elif txt[j] == "}":
+            depth -= 1
+            if depth == 0:
+                break
+        j += 1
+    block = txt[i:j + 1]
+    k = j + 1
+    while txt[k].isspace():
+        k += 1
+    if txt[k] != ";":
+        return txt, 0
+    rest = txt[:m.start()] + "\n" * txt[m.start():k + 1].count("\n") + txt[k + 1:]
+    flat = " ".join(block.split())
+    new, n = re.subn(r"\b" + name + r"\(\)", "(" + flat.replace("\\", "\\\\") + ")", rest)
+    return new, n
+
+
 class Gen:
     def __init__(self, repo, unit, overlay=None, probe=False):
         self.repo = repo
@@ -249,10 +278,17 @@ class Gen:
             if isinstance(r, str):
                 pat, rep = REWRITES[r]
                 name = r
+            elif len(r) == 2 and callable(r[1]):
+                name = r[0]
+                new, n = r[1](txt)
+                if n:
+                    self.fired[name] = self.fired.get(name, 0) + n
+                    txt = new
+                continue
             else:
                 name, pat, rep = r
                 if isinstance(pat, str):
-                    pat = re.compile(pat)
+                    pat = re.compile(pat, re.S)
             new, n = pat.subn(rep, txt)
             if n:
                 self.fired[name] = self.fired.get(name, 0) + n
